@@ -88,6 +88,17 @@ pub fn run(args: &[String]) -> i32 {
                 }
                 Err(e) => push(&mut violations, format!("C12|auto|MT{}|failed", t), &text, json!({"case": case, "err": e})),
             }
+            // the error-collecting twin of the typed API
+            match session::typed_collect(t, &text) {
+                Ok((j, mt_text, nerr)) => {
+                    if j != ty.json || mt_text != ty.mt {
+                        push(&mut violations, format!("C12|typedCollect|MT{}|value-differs-from-typed", t), &text, json!({"case": case}));
+                    } else if nerr > 0 {
+                        push(&mut violations, format!("C12|typedCollect|MT{}|errors-collected-where-typed-has-none", t), &text, json!({"case": case, "n": nerr}));
+                    }
+                }
+                Err(e) => push(&mut violations, format!("C12|typedCollect|MT{}|failed", t), &text, json!({"case": case, "err": e})),
+            }
             // plugin parse
             let r = run_plugin("parse_mt", json!({"mt": text}), json!({"source": "mt", "target": "out"}));
             if !r.ok {
@@ -138,20 +149,20 @@ pub fn run(args: &[String]) -> i32 {
         let aclass = if a_supported { format!("MT{}", a) } else { "unsupported-code".to_string() };
         evaluated += 1;
         match ep {
-            "typed" => {
+            "typed" | "typedCollect" => {
                 // header announces a, body is a valid body of a (if any) and, separately, of r
                 let mut variants: Vec<String> = Vec::new();
                 if let Some(l) = bodies.get(&a) { variants.push(l[0].1.clone()); }
                 if let Some(l) = bodies.get(&r) { if a != r { variants.push(l[0].1.clone()); } }
                 for b4 in variants {
                     let text = message(&a, &b4);
-                    let got = session::typed(&r, &text);
+                    let got: Result<(), String> = if ep == "typed" { session::typed(&r, &text).map(|_| ()) } else { session::typed_collect(&r, &text).map(|_| ()) };
                     match (want, &got) {
                         ("parsed", Ok(_)) => {}
-                        ("parsed", Err(e)) => push(&mut violations, format!("C12|typed|MT{}|rejected-own-type", r), &text, json!({"err": e})),
+                        ("parsed", Err(e)) => push(&mut violations, format!("C12|{}|MT{}|rejected-own-type", ep, r), &text, json!({"err": e})),
                         ("mismatch", Err(e)) if is_mismatch(e) => {}
-                        ("mismatch", Err(e)) => push(&mut violations, format!("C12|typed|announced={}|requested=MT{}|not-a-mismatch-error", aclass, r), &text, json!({"err": e})),
-                        ("mismatch", Ok(_)) => push(&mut violations, format!("C12|typed|announced={}|requested=MT{}|parsed-as-other-type", aclass, r), &text, json!({})),
+                        ("mismatch", Err(e)) => push(&mut violations, format!("C12|{}|announced={}|requested=MT{}|not-a-mismatch-error", ep, aclass, r), &text, json!({"err": e})),
+                        ("mismatch", Ok(_)) => push(&mut violations, format!("C12|{}|announced={}|requested=MT{}|parsed-as-other-type", ep, aclass, r), &text, json!({})),
                         _ => {}
                     }
                 }
